@@ -17,8 +17,8 @@ func init() {
 	core.Register(&core.Check{
 		ID: "C30", Level: "other", Title: "Tendermint-family light clients need a two-thirds power quorum",
 		Technique: "sibling template: guard dominance + quasi-linear normal form of the power threshold + loop-iteration rules",
-		Explain: "Sibling template over VerifyCosmosHeader of cosmos, okex and polygon/heimdall: the nil return is dominated by (a) equality of the trusted info.NextValidatorsHash with the hash of the submitted validator set (cosmos: new or legacy hash form), (b) equality of the header's ValidatorsHash with that hash, (c) commit height == header height, (d) commit block hash == header hash, (e) Commit.ValidateBasic err==nil, (f) validator-set size == number of commit entries, and (g) the fail edge of tallied <= T(total) where T is extracted as a tree over total voting power and proved ≡ ⌊2·total/3⌋ for all totals (so acceptance needs strictly more than two thirds); in the tally loop every entry that is not absent passes PubKey.VerifyBytes (or the function fails) and the tally grows only under VerifyBytes==true and BlockID equality, by that validator's VotingPower. SyncBlockHeader of the three routers: the tracked (NextValidatorsHash, Height) are overwritten only after the fail edge of info.Height >= header.Height (strictly higher) and VerifyCosmosHeader err==nil for that header, and the stored record is that info. Deposits (cosmos, okex MakeDepositProposal): an accepting return is dominated by header height == params.Height, VerifyCosmosHeader err==nil and ProofRuntime.VerifyValue err==nil on the header's AppHash, and no VerifyAbsence call exists on an accepting path; the accepted message is decoded from the proven value. NOT decided: signature cryptography and Merkle proof operators (tendermint / ics23 dependencies).",
-		Run: runC30,
+		Explain:   "Sibling template over VerifyCosmosHeader of cosmos, okex and polygon/heimdall: the nil return is dominated by (a) equality of the trusted info.NextValidatorsHash with the hash of the submitted validator set (cosmos: new or legacy hash form), (b) equality of the header's ValidatorsHash with that hash, (c) commit height == header height, (d) commit block hash == header hash, (e) Commit.ValidateBasic err==nil, (f) validator-set size == number of commit entries, and (g) the fail edge of tallied <= T(total) where T is extracted as a tree over total voting power and proved ≡ ⌊2·total/3⌋ for all totals (so acceptance needs strictly more than two thirds); in the tally loop every entry that is not absent passes PubKey.VerifyBytes (or the function fails) and the tally grows only under VerifyBytes==true and BlockID equality, by that validator's VotingPower. SyncBlockHeader of the three routers: the tracked (NextValidatorsHash, Height) are overwritten only after the fail edge of info.Height >= header.Height (strictly higher) and VerifyCosmosHeader err==nil for that header, and the stored record is that info. Deposits (cosmos, okex MakeDepositProposal): an accepting return is dominated by header height == params.Height, VerifyCosmosHeader err==nil and ProofRuntime.VerifyValue err==nil on the header's AppHash, and no VerifyAbsence call exists on an accepting path; the accepted message is decoded from the proven value. NOT decided: signature cryptography and Merkle proof operators (tendermint / ics23 dependencies).",
+		Run:       runC30,
 	})
 }
 
@@ -298,7 +298,10 @@ func checkTmDeposit(c *core.Ctx, pkg, typ, hs string) {
 	})}
 	eng.Dominates(c, "C30.existence-proof", fn, existence, sinks, "accepting return", nil)
 	// no absence proof anywhere on an accepting path
-	nAbs := len(ir.Calls(fn, func(ci ssa.CallInstruction) bool { o := ir.CalleeObj(ci); return o != nil && o.Name() == "VerifyAbsence" }))
+	nAbs := len(ir.Calls(fn, func(ci ssa.CallInstruction) bool {
+		o := ir.CalleeObj(ci)
+		return o != nil && o.Name() == "VerifyAbsence"
+	}))
 	c.Decide(nAbs == 0, "C30.existence-proof", fn, "no VerifyAbsence call in the deposit path", c.P.Rel(fn.Pos()), sprintf("%d calls", nAbs))
 	// the accepted message is decoded from the proven value
 	if vv != nil {
@@ -310,7 +313,10 @@ func checkTmDeposit(c *core.Ctx, pkg, typ, hs string) {
 			}
 		}
 		okSrc := false
-		for _, ci := range ir.Calls(fn, func(ci ssa.CallInstruction) bool { o := ir.CalleeObj(ci); return o != nil && o.Name() == "NewZeroCopySource" }) {
+		for _, ci := range ir.Calls(fn, func(ci ssa.CallInstruction) bool {
+			o := ir.CalleeObj(ci)
+			return o != nil && o.Name() == "NewZeroCopySource"
+		}) {
 			if sameValue(ci.Common().Args[0], proven) {
 				okSrc = true
 			}
